@@ -52,7 +52,7 @@ pub fn registration_parameters(r: i64) -> ProtocolParameters {
 
 #[derive(Clone, Debug)]
 pub struct Publication {
-    /// chain epoch at the moment of publication (reference clock)
+    /// epoch of the signed entity (the epoch whose keys and stake distribution are in force for it)
     pub epoch: u64,
     pub entity: SignedEntityType,
     #[allow(dead_code)]
@@ -79,6 +79,8 @@ pub struct RefState {
     // --- faults under harness control
     pub down: bool,
     pub stale: bool,
+    /// the aggregator's own clock: its Cardano node is `skew` (0 or 1) epochs ahead of the signer's
+    pub skew: i64,
     pub round_closed: bool,
     pub publish_fails_next: bool,
     pub register_ack_lost_next: bool,
@@ -86,13 +88,16 @@ pub struct RefState {
     /// epoch during which the registration was made → party → registration (the last one wins,
     /// as in a store keyed by (party, epoch))
     pub regs: BTreeMap<i64, BTreeMap<PartyId, Signer>>,
-    /// stake distribution the chain showed during each epoch
+    /// stake distribution of the chain during each epoch (the reference's own knowledge of the chain,
+    /// never a figure claimed by a signer)
     pub stakes: BTreeMap<i64, BTreeMap<PartyId, Stake>>,
     pub publications: Vec<Publication>,
     pub findings: Vec<Finding>,
     pub step: i64,
     // --- statistics
     pub registrations_accepted: u64,
+    pub registrations_accepted_while_ahead: u64,
+    pub publications_while_ahead: u64,
     pub registrations_refused_wrong_epoch: u64,
     pub registrations_refused_invalid: u64,
     pub registrations_refused_round_closed: u64,
@@ -117,12 +122,19 @@ fn unreachable_error(what: &str) -> anyhow::Error {
 }
 
 impl RefAgg {
-    pub fn new(chain: Arc<FakeChainObserver>) -> RefAgg {
-        RefAgg { chain, state: Mutex::new(RefState::default()) }
+    pub fn new(chain: Arc<FakeChainObserver>, stakes: BTreeMap<i64, BTreeMap<PartyId, Stake>>) -> RefAgg {
+        RefAgg { chain, state: Mutex::new(RefState { stakes, ..RefState::default() }) }
     }
 
-    pub async fn chain_epoch(&self) -> i64 {
+    /// epoch of the signer's Cardano node
+    pub async fn node_epoch(&self) -> i64 {
         self.chain.get_current_epoch().await.ok().flatten().map(|e| *e as i64).unwrap_or(0)
+    }
+
+    /// epoch of the aggregator's own clock (never goes backwards: the skew appears when the chain
+    /// enters an epoch the signer's node has not seen yet, and disappears when that node catches up)
+    pub async fn agg_epoch(&self) -> i64 {
+        self.node_epoch().await + self.with(|st| st.skew)
     }
 
     pub fn with<T>(&self, f: impl FnOnce(&mut RefState) -> T) -> T {
@@ -148,13 +160,11 @@ impl RefAgg {
     }
 
     /// The key registration of the signers registered during epoch `r`, closed with the stake
-    /// distribution and the parameters of that epoch. `current` is the running epoch: only
-    /// registrations of earlier epochs are final and can be memoised.
-    pub fn closed_registration(st: &mut RefState, r: i64, current: i64) -> Option<Arc<(SignerBuilder, String)>> {
-        if r < current {
-            if let Some(c) = st.closed.get(&r) {
-                return c.clone();
-            }
+    /// distribution and the parameters of that epoch (memoised; a registration recorded for `r`
+    /// discards the memo).
+    pub fn closed_registration(st: &mut RefState, r: i64) -> Option<Arc<(SignerBuilder, String)>> {
+        if let Some(c) = st.closed.get(&r) {
+            return c.clone();
         }
         let signers = Self::signers_registered_during(st, r);
         let built = SignerBuilder::new(&signers, &registration_parameters(r)).ok().and_then(|b| {
@@ -163,19 +173,18 @@ impl RefAgg {
             let avk = avk.to_json_hex().ok()?;
             Some(Arc::new((b, avk)))
         });
-        if r < current {
-            st.closed.insert(r, built.clone());
-        }
+        st.closed.insert(r, built.clone());
         built
     }
 
     /// registration made by the harness for one of the *other* fixture signers
     pub async fn register_other(&self, signer: Signer) -> bool {
-        let e = self.chain_epoch().await;
+        let e = self.agg_epoch().await;
         self.with(|st| {
             if st.down || st.round_closed {
                 return false;
             }
+            st.closed.remove(&e);
             st.regs.entry(e).or_default().insert(signer.party_id.clone(), signer);
             true
         })
@@ -206,7 +215,7 @@ impl RefAgg {
 #[async_trait]
 impl SignersRegistrationRetriever for RefAgg {
     async fn retrieve_all_signer_registrations(&self) -> StdResult<RegisteredSigners> {
-        let e = self.chain_epoch().await;
+        let e = self.agg_epoch().await;
         self.with(|st| {
             if st.down {
                 st.calls_failed_down += 1;
@@ -252,7 +261,8 @@ impl MithrilNetworkConfigurationProvider for RefAgg {
 #[async_trait]
 impl SignerRegistrationPublisher for RefAgg {
     async fn register_signer(&self, epoch: Epoch, signer: &Signer) -> StdResult<()> {
-        let e = self.chain_epoch().await;
+        // the round, the stake distribution and the epoch of recording are the aggregator's own
+        let e = self.agg_epoch().await;
         self.with(|st| {
             if st.down {
                 st.calls_failed_down += 1;
@@ -288,8 +298,12 @@ impl SignerRegistrationPublisher for RefAgg {
                     "invalid signer registration"
                 ))));
             }
+            st.closed.remove(&e);
             st.regs.entry(e).or_default().insert(signer.party_id.clone(), signer.clone());
             st.registrations_accepted += 1;
+            if st.skew != 0 {
+                st.registrations_accepted_while_ahead += 1;
+            }
             if st.register_ack_lost_next {
                 st.register_ack_lost_next = false;
                 return Err(unreachable_error("answer to register signer lost"));
@@ -318,7 +332,7 @@ impl SignaturePublisher for RefAgg {
         signature: &SingleSignature,
         protocol_message: &ProtocolMessage,
     ) -> StdResult<()> {
-        let e = self.chain_epoch().await;
+        let node = self.node_epoch().await;
         self.with(|st| {
             if st.down {
                 st.calls_failed_down += 1;
@@ -327,6 +341,12 @@ impl SignaturePublisher for RefAgg {
             let step = st.step;
             let finding = |st: &mut RefState, key: &'static str, what: String| st.findings.push(Finding { key, what, step });
             let party = signature.party_id.clone();
+            if st.skew != 0 {
+                st.publications_while_ahead += 1;
+            }
+            // A publication is judged by the epoch of the signed entity, whatever the clocks say: the
+            // keys, stake distribution and parameters in force for it are those of two epochs earlier.
+            let e = entity_epoch_in_force(signed_entity_type).unwrap_or(node);
             let in_force = Self::signers_in_force(st, e);
             let mut accepted = false;
             if !in_force.iter().any(|s| s.party_id == party) {
@@ -334,14 +354,14 @@ impl SignaturePublisher for RefAgg {
                     st,
                     "C20/published-without-registration-two-epochs-earlier",
                     format!(
-                        "in epoch {e} party {party} published a signature for {signed_entity_type:?}, but the reference aggregator holds no registration of it made during epoch {} (registered during: {:?})",
+                        "party {party} published a signature for {signed_entity_type:?} (epoch {e}; node epoch {node}), but the reference aggregator holds no registration of it made during epoch {} (registered during: {:?})",
                         e - SIGN_DELAY,
                         st.regs.iter().filter(|(_, m)| m.contains_key(&party)).map(|(r, _)| *r).collect::<Vec<_>>()
                     ),
                 );
             } else {
                 st.sigs_verified += 1;
-                match Self::closed_registration(st, e - SIGN_DELAY, e) {
+                match Self::closed_registration(st, e - SIGN_DELAY) {
                     None => finding(st, "C20/reference-signer-set-unusable", format!("epoch {e}: no key registration can be built")),
                     Some(c) => match c.0.build_multi_signer().verify_single_signature(protocol_message, signature) {
                         Ok(()) => accepted = true,
@@ -349,7 +369,7 @@ impl SignaturePublisher for RefAgg {
                             st,
                             "C20/signature-rejected-for-epoch-in-force",
                             format!(
-                                "in epoch {e} the signature published by {party} for {signed_entity_type:?} does not verify against the keys registered during epoch {} with the stake distribution and parameters of that epoch: {}",
+                                "the signature published by {party} for {signed_entity_type:?} (epoch {e}) does not verify against the keys registered during epoch {} with the stake distribution and parameters of that epoch: {}",
                                 e - SIGN_DELAY,
                                 format!("{err:?}").replace('\n', " ")
                             ),
@@ -357,23 +377,24 @@ impl SignaturePublisher for RefAgg {
                     },
                 }
             }
-            if entity_epoch_in_force(signed_entity_type) != Some(e) {
+            // a signer signs the beacons of the time point its own node shows
+            if e != node {
                 finding(
                     st,
                     "C20/published-beacon-of-another-epoch",
-                    format!("in epoch {e} a signature was published for {signed_entity_type:?}, a beacon of another epoch"),
+                    format!("while its node was in epoch {node} the signer published a signature for {signed_entity_type:?}, a beacon of another epoch"),
                 );
             }
             // the signed message must commit to what the aggregator derives for the next epoch
             let next_params = registration_parameters(e - SIGN_DELAY + 1);
-            if let Some(next) = Self::closed_registration(st, e - SIGN_DELAY + 1, e) {
+            if let Some(next) = Self::closed_registration(st, e - SIGN_DELAY + 1) {
                 let got = protocol_message.get_message_part(&ProtocolMessagePartKey::NextAggregateVerificationKey);
                 if got != Some(&next.1) {
                     finding(
                         st,
                         "C20/signed-message-commits-to-wrong-next-aggregate-key",
                         format!(
-                            "in epoch {e} the message signed for {signed_entity_type:?} carries a next aggregate verification key that is not the one of the keys registered during epoch {} with that epoch's stake distribution",
+                            "the message signed for {signed_entity_type:?} (epoch {e}) carries a next aggregate verification key that is not the one of the keys registered during epoch {} with that epoch's stake distribution",
                             e - SIGN_DELAY + 1
                         ),
                     );
@@ -383,7 +404,7 @@ impl SignaturePublisher for RefAgg {
                     finding(
                         st,
                         "C20/signed-message-commits-to-wrong-next-parameters",
-                        format!("in epoch {e} the message signed for {signed_entity_type:?} carries next protocol parameters other than those handed out for registration during epoch {}", e - SIGN_DELAY + 1),
+                        format!("the message signed for {signed_entity_type:?} (epoch {e}) carries next protocol parameters other than those handed out for registration during epoch {}", e - SIGN_DELAY + 1),
                     );
                 }
             }
@@ -392,7 +413,7 @@ impl SignaturePublisher for RefAgg {
                 finding(
                     st,
                     "C20/signed-message-names-another-epoch",
-                    format!("in epoch {e} the message signed for {signed_entity_type:?} names current epoch {got:?}"),
+                    format!("the message signed for {signed_entity_type:?} (epoch {e}) names current epoch {got:?}"),
                 );
             }
             let acked = !st.publish_fails_next;
